@@ -439,9 +439,14 @@ func TestC14(t *testing.T) {
 		}
 		c14U.run(t, c)
 	})
-	runProp(t, "cli", 8, 300, func(t *rapid.T) {
+	runProp(t, "cli", 12, 400, func(t *rapid.T) {
 		c := &c14CLICase{N: []int{2, 4, 16}[rapid.IntRange(0, 2).Draw(t, "n")], A: rapid.Bool().Draw(t, "a"), M: rapid.IntRange(0, 2).Draw(t, "m") == 0}
 		nFiles := rapid.IntRange(10, 60).Draw(t, "nFiles")
+		few := rapid.IntRange(0, 2).Draw(t, "fewFiles") == 0
+		if few {
+			// fewer files than workers: every worker must still be waited for
+			nFiles = rapid.IntRange(1, 3).Draw(t, "nFew")
+		}
 		for i := 0; i < nFiles; i++ {
 			kind := []string{"xml", "xml", "xml", "json", "html"}[rapid.IntRange(0, 4).Draw(t, "kind")]
 			ext := map[string]string{"xml": ".xml", "json": ".json", "html": ".html"}[kind]
@@ -449,7 +454,11 @@ func TestC14(t *testing.T) {
 				Data: genCLIFileData(t, kind, rapid.IntRange(0, 9).Draw(t, "bad") == 0)})
 		}
 		// a few files whose output block is far longer than any I/O buffer
-		for i, n := 0, rapid.IntRange(2, 5).Draw(t, "bigFiles"); i < n; i++ {
+		nBig := rapid.IntRange(2, 5).Draw(t, "bigFiles")
+		if few {
+			nBig = 0
+		}
+		for i, n := 0, nBig; i < n; i++ {
 			var sb strings.Builder
 			sb.WriteString("<big>")
 			for k, m := 0, rapid.IntRange(300, 900).Draw(t, "bigNodes"); k < m; k++ {
@@ -460,7 +469,10 @@ func TestC14(t *testing.T) {
 		}
 		c.Expr = []string{"//*", "//text()", "//a", "//node()", "//*[text()]", "count(//*)"}[rapid.IntRange(0, 5).Draw(t, "expr")]
 		st.Class(fmt.Sprintf("cli -c %d", c.N))
-		if nFiles >= 8 && (c.A || c.M) {
+		if few {
+			st.Class("cli fewer files than workers")
+		}
+		if nFiles >= 8 && (c.A || c.M) || few {
 			st.NonTrivial(fmt.Sprint("cli", c.N, c.A, c.M, nFiles, c.Expr, len(c.Files[0].Data)))
 			st.Sample(fmt.Sprint("cli", c.N, c.A, c.M, nFiles, c.Expr), map[string]any{"files": nFiles, "expr": c.Expr, "-a": c.A, "-m": c.M, "-c": c.N})
 		}
